@@ -677,6 +677,57 @@ def replay_narrow_int(p):
     return bool(msgs), '; '.join(msgs[:3]) or 'estimates agree for NumPy integer means'
 
 
+def _returned_kept():
+    """the array a noise call returns is the noise THAT call added, also when the caller keeps it while the frame is used
+    further (executed concretely: aliasing of arrays is not part of the value model): after a second noise call, an
+    injected signal and an in-place edit of the frame, the kept array still equals its value at return, and the frame
+    holds the sum of everything added"""
+    import setigen as stg
+    msgs = []
+    calls = {'chi2': lambda fr: fr.add_noise(3.0),
+             'gaussian': lambda fr: fr.add_noise(3.0, 1.0, noise_type='gaussian'),
+             'truncated': lambda fr: fr.add_noise(3.0, 1.0, 2.5, noise_type='normal'),
+             'from_obs': lambda fr: fr.add_noise_from_obs(SMALL_TABLE[:, 0], SMALL_TABLE[:, 1], SMALL_TABLE[:, 2], noise_type='gaussian'),
+             'from_obs_chi2': lambda fr: fr.add_noise_from_obs(SMALL_TABLE[:, 0], noise_type='chi2')}
+    for prior in ('fresh', 'zeroed', 'signal'):
+        for how, call in calls.items():
+            fr = stg.Frame(fchans=6, tchans=4, df=2.0, dt=4.0, fch1=4096.0, seed=9)
+            if prior == 'zeroed':
+                fr.add_noise(1.0)
+                fr.zero_data()
+            elif prior == 'signal':
+                fr.add_constant_signal(fr.get_frequency(2), 0.0, 5.0, 4.0, f_profile_type='box')
+            before = fr.data.copy()
+            n1 = call(fr)
+            snap = n1.copy()
+            if not np.array_equal(fr.data, before + snap):
+                msgs.append(f"{how} on a {prior} frame: returned noise is not what was added")
+                continue
+            n2 = call(fr)
+            snap2 = n2.copy()
+            fr.add_constant_signal(fr.get_frequency(3), 0.0, 2.0, 4.0, f_profile_type='box')
+            fr.data *= 2.0
+            if not np.array_equal(n1, snap) or not np.array_equal(n2, snap2):
+                which = 'first' if not np.array_equal(n1, snap) else 'second'
+                msgs.append(f"{how} on a {prior} frame: the array returned by the {which} call changed when the frame was used further (it no longer is the noise that call added; max change {float(np.max(np.abs((n1 if which == 'first' else n2) - (snap if which == 'first' else snap2)))):.3g})")
+    return msgs
+
+
+def job_returned_kept():
+    recs = []
+    msgs = _returned_kept()
+    r, _ = core.check([RV(len(msgs)) != 0])
+    recs.append(q("C11:returned-noise-kept", r, trivial=True, detail='; '.join(msgs[:2])))
+    if msgs:
+        recs.append(cex('C11:returned-noise-kept', '; '.join(msgs[:2]), dict(fn='returned_kept'), name="C11:returned-noise-kept"))
+    return recs
+
+
+def replay_returned_kept(p):
+    msgs = _returned_kept()
+    return bool(msgs), '; '.join(msgs[:3]) or 'returned arrays keep their value'
+
+
 def replay_snr(p):
     import setigen as stg
     msgs = []
@@ -708,7 +759,7 @@ def replay_quadrature(p):
     return bad, f"sequence {p['seq']}: total {st.get_total_noise_std()} (expected {want}), other antenna {other.get_total_noise_std()} (expected {want_o})"
 
 
-REPLAYS = {'narrow_int': replay_narrow_int, 'large_noise': replay_large_noise, 'add_noise': replay_add_noise, 'from_obs': replay_from_obs, 'errors': replay_errors, 'snr': replay_snr, 'quadrature': replay_quadrature, 'quadrature_pols': replay_quadrature_pols, 'default_tables': replay_default_tables}
+REPLAYS = {'returned_kept': replay_returned_kept, 'narrow_int': replay_narrow_int, 'large_noise': replay_large_noise, 'add_noise': replay_add_noise, 'from_obs': replay_from_obs, 'errors': replay_errors, 'snr': replay_snr, 'quadrature': replay_quadrature, 'quadrature_pols': replay_quadrature_pols, 'default_tables': replay_default_tables}
 
 
 def main():
@@ -725,6 +776,7 @@ def main():
             jobs.append(('job_add_noise', (2, 2 if ntype != 'chi2' else 3, ntype, prior)))
     jobs.append(('job_errors', ()))
     jobs.append(('job_narrow_int_means', ()))
+    jobs.append(('job_returned_kept', ()))
     for ntype in ('chi2', 'gaussian', 'truncated'):
         jobs.append(('job_large_noise', (ntype,)))
     for ntype in ('chi2', 'gaussian'):
